@@ -595,6 +595,9 @@ def run(ctx: Ctx):
         elif "jacobian" in r["info"]:
             ctx.add("jacobian_rule_decided")
         ctx.add("traces_validated_against_impl")
+        if r["idx"] % 37 == 0:
+            ctx.sample({"options": t, "argv": r["argv"][5:], "raw": r["info"].get("raw"), "target": r["info"].get("target"),
+                        "jacobian_rule": [x if not isinstance(x, list) else x[:2] for x in (r["info"].get("jacobian") or [])][:2]}, limit=5)
         if "abs" in r:
             numeric_bad = any(k == "jacobian" for k, _ in r["problems"])
             items.append((f"t{r['idx']}", r["abs"], [x for x in r["info"].get("raw", []) if x], t["cmd"] != "map" and not (t["cmd"] == "advi" and t["vimisc"] == "iter0"), numeric_bad, t))
